@@ -1,5 +1,6 @@
 /- One line per stream handler. -/
 import Comet.Driver.Flat
+import Comet.Driver.IVF
 import Comet.Driver.PQ
 import Comet.Driver.Meta
 import Comet.Driver.HNSW
@@ -26,6 +27,7 @@ def handlers : List Handler := [
   BM25Stream.handler,
   AtomicStream.handler,
   FlatStream.handler,
+  IVFStream.handler,
   PostStream.handler,
   DistStream.handler,
   TrainStream.handler,
